@@ -1171,8 +1171,11 @@ class Lib:
         pj = [t for t in key_terms(ej) if is_z3(t) and _valid_pattern(t)]
         if not (pj and len(pj) == len(key_terms(ej))):
             pj = _inner_patterns([t for t in key_terms(ej) if is_z3(t)], j)
-        st.assume(z3.ForAll([j], z3.Implies(z3.And(j >= 0, j < n), mem(*key_terms(ej))),
-                            **({"patterns": [pj[0]] if len(pj) == 1 else [z3.MultiPattern(*pj)]} if pj else {})))
+        body = z3.Implies(z3.And(j >= 0, j < n), mem(*key_terms(ej)))
+        try:
+            st.assume(z3.ForAll([j], body, **({"patterns": [pj[0]] if len(pj) == 1 else [z3.MultiPattern(*pj)]} if pj else {})))
+        except z3.Z3Exception:
+            st.assume(z3.ForAll([j], body))
         size = z3.Int(uid("setsize"))
         i2 = bvar("i")
         distinct = z3.ForAll([j, i2], z3.Implies(z3.And(j >= 0, j < i2, i2 < n), z3.Not(to_z3(values_equal(_askey(s.at(j)), _askey(s.at(i2)))))))
